@@ -2372,7 +2372,13 @@ impl<'s> Semantics<'s> {
             let block = control_flow_graph.new_block()?;
 
             let src = self.operand_load(block, &detail.operands[1])?;
-            let value = Expr::zext((detail.operands[0].size as usize) * 8, src)?;
+            let dst_bits = (detail.operands[0].size as usize) * 8;
+            // movd r/m32, xmm moves the low doubleword of the wider source
+            let value = if src.bits() > dst_bits {
+                Expr::trun(dst_bits, src)?
+            } else {
+                Expr::zext(dst_bits, src)?
+            };
 
             self.operand_store(block, &detail.operands[0], value)?;
 
